@@ -173,8 +173,10 @@ pub fn resolve_constant(
                 symbol.value);
         }
 
+        // The value is final, but items resolved earlier in
+        // this pass haven't seen it yet, so a change must
+        // still be reported below
         symbol.resolved = true;
-        return Ok(asm::ResolutionState::Resolved);
     }
 
 
